@@ -9,7 +9,7 @@ from vf.xmodel import Schema, Rop, Bound, Outcome, build_api, build_loader
 
 SHARDS = {'quick': 16, 'thorough': 64}
 TIMEOUT = {'quick': 1200, 'thorough': 7200}
-MUST_HIT = ['EarlierObject.rechecked', 'QueryRef.select', 'QueryRef.navigate', 'QueryRef.subtype', 'QueryRef.two-hop',
+MUST_HIT = ['Ambient.QueryRef.ambient-select', 'Ambient.QueryRef.ambient-select-non-empty', 'Ambient.QueryRef.ambient-navigation', 'Ambient.QueryRef.ambient-navigation-of-several-steps', 'Ambient.QueryRef.ambient-navigation-to-several', 'Ambient.Suite.tests-passed', 'EarlierObject.rechecked', 'QueryRef.select', 'QueryRef.navigate', 'QueryRef.subtype', 'QueryRef.two-hop',
             'QueryRef.order_by-with-ties', 'QueryRef.set-valued-start', 'QueryRef.filter-covers-identifier', 'QueryRef.first-last', 'QueryRef.query-repeated',
             'QueryRef.attribute-assigned-between-queries', 'QueryRef.random-schema']
 MUST_REACH = ['xtuml/meta.py:apply_query_operators', 'xtuml/meta.py:WhereEqual.__call__',
@@ -465,6 +465,12 @@ def random_schema(rng, i):
 
 
 def run(ctx):
+    if ctx.shard == ctx.nshards - 1:
+        # every selection and navigation the repository's own tests perform (prebuilder, text generator, interpreter,
+        # component and schema builders on the ooaofooa schema), answered a second time by the naive evaluation
+        from vf import ambient
+        ambient.report(ctx, ambient.run_suite(ctx, ('queries',)), 'Ambient')
+        return
     fixed = schema()
     fixed.fixed = True
     rng = ctx.rng
